@@ -28,7 +28,7 @@ class RM(Enum):
             RM.RM_TowardsNegativeInf: decimal.ROUND_FLOOR,
             RM.RM_TowardsZero: decimal.ROUND_DOWN,
             RM.RM_NearestTiesEven: decimal.ROUND_HALF_EVEN,
-            RM.RM_NearestTiesAwayFromZero: decimal.ROUND_UP,
+            RM.RM_NearestTiesAwayFromZero: decimal.ROUND_HALF_UP,
         }[self]
 
 
